@@ -35,9 +35,64 @@ import (
 
 // ---- evidence counters ------------------------------------------------------
 
-var counters = map[string]int{}
+var (
+	counters = map[string]int{}
+	pending  = map[string]int{} // counts of the case being evaluated
+	lastCase string
+	replayed bool
+)
 
-func count(k string) { counters[k]++ }
+// accounting is off while the determinism self check replays an execution, so
+// that evidence counts only the enumeration itself.
+var accounting = true
+
+func count(k string) { pending[k]++ }
+
+func countN(k string, n int) { pending[k] += n }
+
+// eval accounts for one evaluated case. The explorer re-executes a violating
+// execution (twice, right after it) to confirm it is deterministic; such
+// immediate re-executions of the same case are not counted again.
+func eval(rep *report.R, r *explore.Run, scenario, outcome, nontrivial string) {
+	key := scenario + fmt.Sprint(r.Choices)
+	replayed = key == lastCase
+	lastCase = key
+	if accounting && !replayed {
+		for k, n := range pending {
+			counters[k] += n
+		}
+		rep.Eval(scenario, outcome, nontrivial)
+	}
+	pending = map[string]int{}
+}
+
+var sampled = map[string]bool{}
+
+// sample records at most one example per shard (vcheck
+// keeps the first six over all shards; the scenario order makes them diverse).
+func sample(rep *report.R, scenario string, mk func() map[string]any) {
+	if !accounting || replayed || sampled[scenario] || len(sampled) >= 1 || !rep.WantSample() {
+		return
+	}
+	sampled[scenario] = true
+	rep.Sample(mk())
+}
+
+// verdict holds the first violation of a case; it is raised after the case
+// was accounted for.
+type verdict struct{ sig, msg string }
+
+func (v *verdict) failf(sig, format string, a ...any) {
+	if v.sig == "" {
+		v.sig, v.msg = sig, fmt.Sprintf(format, a...)
+	}
+}
+
+func (v *verdict) raise(r *explore.Run) {
+	if v.sig != "" {
+		r.Failf(v.sig, "%s", v.msg)
+	}
+}
 
 // ---- rule universes ----------------------------------------------------------
 
@@ -279,6 +334,7 @@ func judge(r *explore.Run, rep *report.R, scenario string, t *coverTable, ai, qi
 	}
 	covered := excess < 0
 
+	v := &verdict{}
 	switch {
 	case accepted && !covered:
 		q := t.universe[excess]
@@ -292,7 +348,7 @@ func judge(r *explore.Run, rep *report.R, scenario string, t *coverTable, ai, qi
 				}
 			}
 		}
-		r.Failf("allow/covers-more/"+dim, "Crossplane accepts permission requests %s against allow-list rules %s, but the requests grant %s which the allow-list ClusterRole does not grant under Kubernetes RBAC semantics", rulesString(req), rulesString(allow), q)
+		v.failf("allow/covers-more/"+dim, "Crossplane accepts permission requests %s against allow-list rules %s, but the requests grant %s which the allow-list ClusterRole does not grant under Kubernetes RBAC semantics", rulesString(req), rulesString(allow), q)
 	case accepted:
 		count("accepted")
 	case covered:
@@ -311,10 +367,13 @@ func judge(r *explore.Run, rep *report.R, scenario string, t *coverTable, ai, qi
 	if partialOverlap(allow, req) {
 		nt = report.Hash(scenario, ai, qi)
 	}
-	rep.Eval(scenario, outcome, nt)
-	if nt != "" && !accepted && covered && rep.WantSample() {
-		rep.Sample(map[string]any{"scenario": scenario, "allow": rulesString(allow), "requests": rulesString(req), "crossplane": "rejects " + fmt.Sprint(rejected), "kubernetes": "covered (stricter, not a violation)", "choices": append([]int{}, r.Choices...)})
+	eval(rep, r, scenario, outcome, nt)
+	if nt != "" && !accepted && covered {
+		sample(rep, scenario, func() map[string]any {
+			return map[string]any{"scenario": scenario, "allow": rulesString(allow), "requests": rulesString(req), "crossplane": "rejects " + fmt.Sprint(rejected), "kubernetes": "covered (stricter, not a violation)", "choices": append([]int{}, r.Choices...)}
+		})
 	}
+	v.raise(r)
 }
 
 func coverScenario(rep *report.R, t *coverTable, name string, nAllow, nReq int) report.Scenario {
@@ -377,17 +436,17 @@ func TestCheck(t *testing.T) {
 	var scs []report.Scenario
 	// Reconciler level first (scenario 0 is used for the determinism self check).
 	recon := reconcileScenarios(t, rep)
-	scs = append(scs, recon...)
-	scs = append(scs, bindingScenario(t, rep), xrdScenario(t, rep))
-
-	scs = append(scs,
-		sizesScenario(rep, ext, "cover/ext/with-empty-set", [][2]int{{0, 0}, {0, 1}, {1, 0}, {0, 2}, {2, 0}}),
+	// The first scenarios are of different kinds (one sample each is kept).
+	scs = append(scs, recon[0], xrdScenario(t, rep),
 		coverScenario(rep, ext, "cover/ext/1x1", 1, 1),
-		coverScenario(rep, ext, "cover/ext/2x1", 2, 1),
-		coverScenario(rep, ext, "cover/ext/1x2", 1, 2),
 		sizesScenario(rep, urls, "url/sizes0-2", [][2]int{{1, 1}, {0, 0}, {0, 1}, {1, 0}, {2, 1}, {1, 2}, {2, 2}, {0, 2}, {2, 0}}),
 		mixedScenario(rep, mixed, nCore, nURL),
+		bindingScenario(t, rep),
+		sizesScenario(rep, ext, "cover/ext/with-empty-set", [][2]int{{0, 0}, {0, 1}, {1, 0}, {0, 2}, {2, 0}}),
+		coverScenario(rep, ext, "cover/ext/2x1", 2, 1),
+		coverScenario(rep, ext, "cover/ext/1x2", 1, 2),
 	)
+	scs = append(scs, recon[1:]...)
 	if report.Thorough() {
 		// Split by the first allow rule so that the scenarios spread over shards.
 		for i := 0; i < len(core.rules)-1; i++ {
@@ -404,7 +463,9 @@ func TestCheck(t *testing.T) {
 		rep.Bound("rule_set_sizes", "allow x request in {0,1,2}x{0,1,2} except 2x2 over the extended universe; url rules all sizes 0..2; mixed allow {res,url} x 1 request")
 	}
 
+	accounting = false
 	rep.SelfCheck(t, recon[0], nil)
+	accounting = true
 	rep.RunScenarios(t, scs)
 
 	keys := make([]string, 0, len(counters))
